@@ -165,6 +165,7 @@ func init() {
 		"zzUnreachable":    inUnreachable,
 		"zzCover":          inCover,
 		"zzYield":          inYield,
+		"zzGuardedBy":      inGuardedBy,
 		"zzWaitIdle":       inWaitIdle,
 		"zzStrEq":          inStrEq,
 		"zzDeepEqual":      inDeepEqual,
